@@ -13,7 +13,7 @@ import C18_gen
 PROPS = ['Props/Properties_C18.v']
 EXTRACT = '''From Coq Require Import Extraction ExtrOcamlBasic.
 Require Import C18_Model C18_Spec.
-Extraction "c18.ml" wstep st0 isUpToDate abs gstep g_copy gvalid legal copy_ok wf_check dyn_check.
+Extraction "c18.ml" wstep st0 isUpToDate abs gstep g_copy gvalid legal copy_ok wf_check dyn_check covered.
 '''
 ADV = lambda sl, ss, a, b: ''.join('On %d ADVS %d %d\nOn %d ADVY %d\n' % (sl, ss, g, sl, g) for g in range(a, b + 1))
 # witness sequences (one State slot 0, one subsystem unless said otherwise); the last dump decides
@@ -134,14 +134,18 @@ def search(ctx, exe, drv, cf, n):
                 rb = rb[:max(k - 1, 0)]; ra = ra[:len(rb)]
             else:
                 pass
-            return r1 != 0 or ra != rb
+            if r1 == 0 and ra == rb: return None
+            dd = next((i for i in range(min(len(ra), len(rb))) if ra[i] != rb[i]), min(len(ra), len(rb)))
+            return (dd, ra[dd] if dd < len(ra) else '<eof>', rb[dd] if dd < len(rb) else '<eof>')
         lines = S[sid].strip().split('\n'); head, ops = lines[0], lines[1:-1]
         i = 0
         while i < len(ops) and len(ops) > 1:
             c = ops[:i] + ops[i + 1:]
-            if departs('\n'.join([head] + c + ['END']) + '\n'): ops = c
+            if departs('\n'.join([head] + c + ['END']) + '\n') is not None: ops = c
             else: i += 1
         S[sid] = '\n'.join([head] + ops + ['END']) + '\n'
+        dd = departs(S[sid])
+        if dd is not None: d, x, y = dd
         ctx.report('impl:spec-mismatch', 'implementation trace departs from the specification on a legal prefix: impl "%s" spec "%s"' % (x, y),
                    {'failing_input': S[sid], 'first_difference': {'line': d, 'implementation': x, 'specification': y},
                     'replay_cmd': 'bin/check C18 --replay <this file>'})
@@ -176,7 +180,7 @@ def run(ctx):
     exe, drv = b
     cf = witnesses(ctx, exe)
     ctx.log('tree under test implements cfg fix_auto=%d fix_copyver=%d' % cf)
-    nseq = 3000 if ctx.tier == 'quick' else 60000
+    nseq = 3000 if ctx.tier == "quick" else 30000
     seqs = []; feats = {}; nsubh = {}
     cdir = os.path.join(VERIF, 'corpus', 'C18')
     if os.path.isdir(cdir):
@@ -187,7 +191,7 @@ def run(ctx):
         t, g = C18_gen.gen_seq(ctx.rng, 's%d' % i); seqs.append(t)
         for f in g.feat: feats[f] = feats.get(f, 0) + 1
         nsubh[g.nsub] = nsubh.get(g.nsub, 0) + 1
-    dis = None; nops = 0; nthrow = 0; nontriv = set(); opsh = {}; inv = {'states': 0, 'wf_fail': 0, 'dyn_fail': 0, 'first': ''}
+    dis = None; nops = 0; nthrow = 0; nontriv = set(); opsh = {}; inv = {'states': 0, 'wf_fail': 0, 'dyn_fail': 0, 'first': '', 'ops': 0, 'ops_inside_refinement_theorem': 0}
     CH = 5000
     for c0 in range(0, len(seqs), CH):
         txt = ''.join(seqs[c0:c0 + CH])
@@ -205,10 +209,11 @@ def run(ctx):
             if 'ok=1' in blk and 'ok=0' in blk and 'vv=2' in blk: nontriv.add(hashlib.sha1(blk.encode()).hexdigest())
         # invariants of the refinement proof (wf_check / dyn_check of C18_Spec.v) on every state the model reaches
         rc3, iv, _e3 = sh([drv, str(cf[0]), str(cf[1]), "inv"], input=txt, timeout=1800)
-        m3 = re.search(r'INV states=(\d+) wf_fail=(\d+) dyn_fail=(\d+) first=(.*)', iv)
+        m3 = re.search(r'INV states=(\d+) wf_fail=(\d+) dyn_fail=(\d+) ops=(\d+) thm=(\d+) first=(.*)', iv)
         if m3:
             inv['states'] += int(m3.group(1)); inv['wf_fail'] += int(m3.group(2)); inv['dyn_fail'] += int(m3.group(3))
-            if m3.group(4).strip() and not inv['first']: inv['first'] = m3.group(4).strip()
+            inv['ops'] += int(m3.group(4)); inv['ops_inside_refinement_theorem'] += int(m3.group(5))
+            if m3.group(6).strip() and not inv['first']: inv['first'] = m3.group(6).strip()
     for s in seqs:
         for l in s.split('\n'):
             p = l.split()
